@@ -103,6 +103,8 @@ def build(cfg, ops, sizes, reopen_points=(), new_kwargs=None, schedule=None, wan
     b = Built()
     b.cfg, b.ops = cfg, ops
     b.reopen_points = tuple(reopen_points)
+    from harness import common as _common
+    _common.reset_uuid()
     iso = cfg.new(**(new_kwargs or {}))
     try:
         for i, op in enumerate(ops + [None]):
